@@ -1379,7 +1379,7 @@ func (x *Exec) callEffects(n *ast.CallExpr, info *types.Info) (allocs, ghosts bo
 	if full == "(*bufio.Scanner).Text" {
 		return false, false, nil
 	}
-	if full == "sort.Slice" || full == "sort.SliceStable" {
+	if full == "sort.Slice" || full == "sort.SliceStable" || full == "sort.Sort" || full == "sort.Stable" {
 		if t := info.TypeOf(n.Args[0]); t != nil {
 			if sl, ok := t.Underlying().(*types.Slice); ok {
 				return false, false, []string{x.c.sortOf(sl.Elem())}
@@ -1474,7 +1474,7 @@ func (x *Exec) ghostHandlesIn(body ast.Node, st *State, env *Env) (all bool, han
 				return true
 			}
 			full := fn.FullName()
-			if pureLib[full] || full == "sort.Slice" || full == "sort.SliceStable" {
+			if pureLib[full] || full == "sort.Slice" || full == "sort.SliceStable" || full == "sort.Sort" || full == "sort.Stable" {
 				return true
 			}
 			if full == "strings.Fields" || full == "strings.Split" || full == "(github.com/biogo/hts/sam.Seq).Expand" {
